@@ -175,7 +175,7 @@ func (x *Exec) harnessIntrinsic(st *State, name string, args []Value) Value {
 		switch x.check(st.pc, x.mkNot(c)) {
 		case "sat":
 			a.Sat++
-			x.recordViolation(st, id, x.mkNot(c), "")
+			x.recordViolation(st, id, x.mkNot(c), "", true)
 		case "unsat":
 			a.Unsat++
 		default:
@@ -198,7 +198,7 @@ func (x *Exec) harnessIntrinsic(st *State, name string, args []Value) Value {
 		}
 		if x.check(st.pc, c) == "sat" {
 			x.res.Known[id]++
-			if v := x.recordViolation(st, "KNOWN:"+id, c, ""); v != nil {
+			if v := x.recordViolation(st, "KNOWN:"+id, c, "", true); v != nil {
 				v.Known = true
 			}
 		}
@@ -221,11 +221,7 @@ func (x *Exec) harnessIntrinsic(st *State, name string, args []Value) Value {
 		return nil
 	case "vParam":
 		n := args[0].(StringV).s
-		v, ok := x.params[n]
-		if !ok {
-			panic(internalErr{"missing parameter " + n})
-		}
-		return x.mkConst(64, uint64(v))
+		return x.mkConst(64, uint64(x.params[n])) // absent = 0
 	case "vWant":
 		p := args[0].(StringV).s
 		if len(x.want) == 0 {
